@@ -82,8 +82,9 @@ func zzH_c14_cipher_asn1_roundtrip() {
 // integers and any two octet strings.)
 //
 //verif:property C18
+//verif:property C02
 //verif:expect-reach end
-//verif:bound decoded x and y each with 0, 1, 31, 32, 33 or 40 significant bytes (content symbolic), hash of 0, 31, 32 or 33 bytes, ciphertext of 0..2 bytes; decoding itself replaced by a value store (the real DER decoder runs natively)
+//verif:bound decoded x and y each with 0, 1, 31, 32, 33 or 40 significant bytes (content symbolic) and either sign, hash of 0, 31, 32 or 33 bytes, ciphertext of 0..2 bytes; decoding itself replaced by a value store (the real DER decoder runs natively)
 //verif:outside DER decoding itself (encoding/asn1)
 //verif:stub-symbolic encoding/asn1.Unmarshal zzStubAsn1Unmarshal14
 //verif:native-smoke
@@ -102,6 +103,14 @@ func zzH_c18_sm2_cipherunmarshal() {
 		return new(big.Int).SetBytes(b)
 	}
 	x, y := mk("x", kx), mk("y", ky)
+	// a DER INTEGER may be negative: Bytes() would drop the sign and a different C1 come out
+	negX, negY := vBool("negativeX") && kx > 0, vBool("negativeY") && ky > 0
+	if negX {
+		x.Neg(x)
+	}
+	if negY {
+		y.Neg(y)
+	}
 	hash, c2 := vBytes("hash", hl, hl), vBytes("c2", L, L)
 	var der []byte
 	if vNative() {
@@ -111,9 +120,13 @@ func zzH_c18_sm2_cipherunmarshal() {
 		der = []byte{0x30, 0x01, 0x01}
 	}
 	out, err := CipherUnmarshal(der)
-	if err == nil && kx <= 32 && ky <= 32 && kx > 0 && ky > 0 && hl == 32 {
+	wellFormed := kx <= 32 && ky <= 32 && hl == 32 && !negX && !negY
+	if err == nil && wellFormed && kx > 0 && ky > 0 {
 		vAssert("well-formed-ciphertext-decodes", len(out) == 97+L && out[0] == 4)
 	}
+	// the raw form is assembled by position: fields of any other shape must not be turned into
+	// a (different) raw ciphertext
+	vAssert("negative-or-oversized-coordinate-or-c3-not-32-bytes-is-an-error", wellFormed || err != nil)
 	vReach("end")
 }
 
